@@ -45,6 +45,10 @@ pub struct K18 {
     /// receiver position (--lat / --long); default (35, -80)
     #[serde(default = "default_rx")]
     pub rx: (f64, f64),
+    /// mobile receiver: radar runs with `--gpsd`; `--lat/--long` name a place this far from the
+    /// receiver, and the gpsd daemon reports the receiver's real position (`rx`) before any traffic
+    #[serde(default)]
+    pub gpsd_cli_offset: Option<(f64, f64)>,
 }
 
 fn default_rx() -> (f64, f64) {
@@ -126,7 +130,7 @@ fn generate_two_lives(rng: &mut Rng) -> K18 {
         KEvent { at_us: 1_800_000, ev: key("F1") },
         KEvent { at_us: 2_000_000, ev: key("c:q") },
     ];
-    K18 { cols: 120, rows: 40, filter_time, locations: vec![("RX".to_string(), 0.0, 0.0)], flags: vec![], lines, events_a, events_b, bulk: 0, many: false, rx }
+    K18 { cols: 120, rows: 40, filter_time, locations: vec![("RX".to_string(), 0.0, 0.0)], flags: vec![], lines, events_a, events_b, bulk: 0, many: false, rx, gpsd_cli_offset: None }
 }
 
 pub fn generate(rng: &mut Rng, fault_free: bool) -> K18 {
@@ -389,8 +393,11 @@ pub fn generate(rng: &mut Rng, fault_free: bool) -> K18 {
     push(&mut events_b, &mut t, key("F4"), 250_000);
     push(&mut events_b, &mut t, key("F1"), 250_000);
     push(&mut events_b, &mut t, key("c:q"), 0);
-    K18 { cols, rows, filter_time, locations, flags, lines, events_a, events_b, bulk, many: many || excursion, rx }
+    let gpsd_cli_offset = if !fault_free && rng.chance(0.12) { Some(*rng.pick(&[(0.5, 0.0), (0.0, 1.0), (-0.7, 0.8), (1.0, -1.0), (0.0, -0.3), (0.01, 0.01)])) } else { None };
+    K18 { cols, rows, filter_time, locations, flags, lines, events_a, events_b, bulk, many: many || excursion, rx, gpsd_cli_offset }
 }
+
+const GPSD_LEAD_US: u64 = 300_000;
 
 fn end_a(sc: &K18) -> u64 {
     let a = sc.lines.last().map(|l| l.0).unwrap_or(0).max(sc.bulk as u64 * 10_500 + if sc.bulk > 0 { 2_000_000 } else { 0 });
@@ -449,9 +456,39 @@ pub fn compile(sc: &K18) -> KChild {
         let t = events.last().map(|e| e.at_us).unwrap_or(base) + 200_000;
         events.push(KEvent { at_us: t, ev: key("c:q") });
     }
+    let mut connects = connects;
+    let mut gpsd = None;
+    if sc.gpsd_cli_offset.is_some() {
+        // the daemon's greeting and the first fix are there when radar's gpsd thread connects (end
+        // of the first main-loop iteration); traffic and the operator start 300 ms later
+        for s in connects[0].segments.iter_mut() {
+            s.at_us += GPSD_LEAD_US;
+        }
+        for e in events.iter_mut() {
+            e.at_us += GPSD_LEAD_US;
+        }
+        let l = |at_us: u64, v: Value, fix: Option<(f64, f64)>| KGpsdLine { at_us, text: v.to_string(), fix };
+        let tpv = |la: f64, lo: f64| json!({"class": "TPV", "device": "/dev/ttyACM0", "mode": 3, "time": "2023-11-14T22:13:20.000Z", "lat": la, "lon": lo, "alt": 120.5, "speed": 0.1, "track": 12.0});
+        let mut lines = vec![
+            l(0, json!({"class": "VERSION", "release": "3.25", "rev": "3.25", "proto_major": 3, "proto_minor": 15}), None),
+            l(0, json!({"class": "DEVICES", "devices": [{"class": "DEVICE", "path": "/dev/ttyACM0", "driver": "u-blox", "activated": "2023-11-14T22:13:19.000Z"}]}), None),
+            l(0, json!({"class": "WATCH", "enable": true, "json": true, "nmea": false, "raw": 0, "scaled": false, "timing": false, "split24": false, "pps": false}), None),
+            // no fix yet, then a sky view, then the fix
+            l(0, json!({"class": "TPV", "device": "/dev/ttyACM0", "mode": 1}), None),
+            l(0, json!({"class": "SKY", "device": "/dev/ttyACM0", "hdop": 1.1, "satellites": []}), None),
+            l(0, tpv(sc.rx.0, sc.rx.1), Some(sc.rx)),
+        ];
+        let t_end = events.last().map(|e| e.at_us).unwrap_or(0);
+        let mut t = 1_000_000;
+        while t < t_end && lines.len() < 40 {
+            lines.push(l(t, tpv(sc.rx.0, sc.rx.1), Some(sc.rx)));
+            t += 1_000_000;
+        }
+        gpsd = Some(KGpsd { refuse: false, lines });
+    }
     // never coalesce: one segment (= one line) per read, so the processing time of every line is
     // the time of its RD entry in the seam log
-    KChild { connects, events, proc_delay_us: vec![], coalesce: vec![false], step_budget: 40_000 + 4 * sc.bulk as u64 }
+    KChild { gpsd, ev_delay_us: vec![], connects, events, proc_delay_us: vec![], coalesce: vec![false], step_budget: 40_000 + 4 * sc.bulk as u64 }
 }
 
 struct RefSnap {
@@ -549,7 +586,11 @@ fn map_text(s: &Screen) -> Option<String> {
 pub fn execute(sc: &K18) -> Outcome {
     let mut out = Outcome::default();
     let child = compile(sc);
-    let mut args: Vec<String> = vec![format!("--lat={}", sc.rx.0), format!("--long={}", sc.rx.1), "--log-folder=logs".into(), format!("--filter-time={}", sc.filter_time)];
+    let cli = sc.gpsd_cli_offset.map(|(a, b)| (sc.rx.0 + a, sc.rx.1 + b)).unwrap_or(sc.rx);
+    let mut args: Vec<String> = vec![format!("--lat={}", cli.0), format!("--long={}", cli.1), "--log-folder=logs".into(), format!("--filter-time={}", sc.filter_time)];
+    if sc.gpsd_cli_offset.is_some() {
+        args.push("--gpsd".into());
+    }
     args.extend(sc.flags.iter().cloned());
     if !sc.locations.is_empty() {
         args.push("--locations".into());
@@ -740,8 +781,47 @@ pub fn execute(sc: &K18) -> Outcome {
     if p.vt.frames.len() >= 40 && p.vt.frames.iter().all(|f| tab_bar_count(f).is_none()) {
         simcore::harness_error("C18: no drawn frame shows a tab bar of the form 'Map .. Coverage .. Airplanes(N)': the screen parser does not recognise this UI");
     }
+    // mobile receiver: everything is judged against the position the gpsd daemon reported, from
+    // the first frame drawn after the fix was handed to radar's gpsd thread
+    let mut first_judged_k = 0u64;
+    if sc.gpsd_cli_offset.is_some() {
+        let mut last_k = 0u64;
+        let mut fix_after: Option<u64> = None;
+        for l in &p.log {
+            match l {
+                LogEv::Frame { k, .. } => last_k = *k,
+                LogEv::Gpsd { fix: Some(f), .. } if fix_after.is_none() => {
+                    if (f.0 - sc.rx.0).abs() < 1e-9 && (f.1 - sc.rx.1).abs() < 1e-9 {
+                        fix_after = Some(last_k);
+                    }
+                }
+                _ => {}
+            }
+        }
+        match fix_after {
+            Some(k) => {
+                first_judged_k = k + 1;
+                out.fault("receiver_position_from_gpsd");
+            }
+            None => {
+                // the daemon's fix never reached radar (no gpsd thread): nothing can be judged
+                out.probe("gpsd_fix_never_delivered");
+                return out;
+            }
+        }
+        // the reference tracker is fed with the reported position throughout: a line processed
+        // before the fix would make the run unjudgeable (the script leaves 300 ms for the fix)
+        let fix_pos = p.log.iter().position(|l| matches!(l, LogEv::Gpsd { fix: Some(_), .. })).unwrap_or(0);
+        if p.log[..fix_pos].iter().any(|l| matches!(l, LogEv::Rd { kind, .. } if kind == "data")) {
+            out.inconclusive = true;
+            return out;
+        }
+    }
     let mut judged = (0u32, 0u32, 0u32);
     for s in &p.vt.frames {
+        if s.k < first_judged_k {
+            continue;
+        }
         let Some(r) = snaps.get(&s.k) else { continue };
         if backlog_at_frame[&s.k] {
             // the client may still be working through lines that arrived together (one line per
